@@ -16,6 +16,7 @@ import (
 	"errors"
 	"fmt"
 	"os"
+	"path/filepath"
 	"regexp"
 	"sort"
 	"strings"
@@ -252,7 +253,7 @@ func runRelaxed(c Case, rx relax) (inf info, err error) {
 //	                              side although the result depends on stored data
 //	"const-through-absent"        absent*/absent_over_time over an argument holding a constant: dead / always-returns
 //	                              flags pass through although absent() inverts emptiness
-var classOrder = []string{"by-name-keeps-name", "const-or-lhs", "const-cmp-bool", "const-value-rewrapped", "const-joined-with-selector", "const-through-absent"}
+var classOrder = []string{"by-name-keeps-name", "const-or-lhs", "const-cmp-bool", "const-through-absent", "const-value-rewrapped", "const-joined-with-selector"}
 
 var classRelax = map[string]relax{
 	"by-name-keeps-name":         {ignoreName: true},
@@ -532,5 +533,28 @@ func TestReplay(t *testing.T) {
 	}
 	if _, err := run(c); err != nil && !errors.Is(err, errSkip) {
 		t.Fatalf("%v", err)
+	}
+}
+
+// TestKnownClassOfReplays: every stored replay named <class>[-variant].json fails and falls into that class
+// (self-check of the predicates; not a driver stage).
+func TestKnownClassOfReplays(t *testing.T) {
+	files, _ := filepath.Glob(filepath.Join(vstat.Root(), "replays", prop, "*.json"))
+	for _, f := range files {
+		base := strings.TrimSuffix(filepath.Base(f), ".json")
+		if strings.HasPrefix(base, "viol-") || strings.HasPrefix(base, "fixed-") {
+			continue
+		}
+		var c Case
+		if err := vstat.LoadReplay(f, &c); err != nil {
+			t.Errorf("%s: %v", f, err)
+			continue
+		}
+		_, err := run(c)
+		cls := knownClass(c)
+		t.Logf("%s: fails=%v class=%q", base, err != nil, cls)
+		if err != nil && (cls == "" || !strings.HasPrefix(base, cls)) {
+			t.Errorf("%s: failing case is in class %q", base, cls)
+		}
 	}
 }
